@@ -167,6 +167,11 @@ class Exec:
             return self.block(st.body, env)
         if isinstance(st, ast.For):
             return self.loop(st, env)
+        if isinstance(st, ast.FunctionDef):
+            if st.decorator_list or st.args.defaults or st.args.vararg or st.args.kwarg or st.args.kwonlyargs:
+                raise TranslateError('unsupported local function ' + st.name)
+            env[st.name] = Val('localfn', fn=st, env=env)      # late binding, as in Python
+            return None
         raise TranslateError('unsupported statement: ' + ast.unparse(st)[:80])
 
     def range_kind(self, it, env):
@@ -179,10 +184,24 @@ class Exec:
         raise TranslateError('unsupported loop bound: ' + ast.unparse(it))
 
     def loop(self, st, env):
-        if st.orelse or not isinstance(st.target, ast.Name):
+        if st.orelse:
             raise TranslateError('unsupported loop')
-        rk = self.range_kind(st.iter, env)
-        var = st.target.id
+        pre = {}
+        if isinstance(st.target, ast.Tuple) and len(st.target.elts) == 2 \
+                and all(isinstance(x, ast.Name) for x in st.target.elts) and isinstance(st.iter, ast.Call) \
+                and ast.unparse(st.iter.func) == 'enumerate' and len(st.iter.args) == 1 and not st.iter.keywords:
+            # `for l, x in enumerate(<one value per stream>)`
+            g = self.expr(st.iter.args[0], env)
+            if g.kind != 'array' or not getattr(g, 'complete', False):
+                raise TranslateError('unsupported enumerate: ' + ast.unparse(st.iter))
+            rk, var = 'L', st.target.elts[0].id
+            pre[st.target.elts[1].id] = g.stored
+        else:
+            if not isinstance(st.target, ast.Name):
+                raise TranslateError('unsupported loop target')
+            rk = self.range_kind(st.iter, env)
+            var = st.target.id
+        env.update(pre)
         if rk == 'L':
             # the loop over the streams of user k: the body is executed once, with the stream index symbolic;
             # every array written at [l] holds "the value for stream l"
@@ -263,6 +282,8 @@ class Exec:
         if isinstance(op, ast.Div) and a.kind == 'cplx' and b.kind == 'cplx':
             self.divisions.append((a.t, b.t))
             return Val('cplx', '(%s / %s)' % (a.t, b.t))
+        if isinstance(op, ast.Div) and a.kind == 'mat' and b.kind == 'mat':
+            return Val('divmat', a=a, b=b)      # only `.item()` is defined on it: the quotient of two 1x1 arrays
         if isinstance(op, ast.MatMult) and a.kind == 'mat' and b.kind == 'mat':
             return mat('(matMul %s %s)' % (fin(a), fin(b)))
         raise TranslateError('unsupported operation %s on %s, %s' % (type(op).__name__, a.kind, b.kind))
@@ -287,6 +308,10 @@ class Exec:
         txt = ast.unparse(e)
         if txt in self.hooks:
             return self.hooks[txt](self, e, env)
+        if isinstance(e, ast.Call) and ast.unparse(e.func) in ChannelHooks.GETTERS:
+            return ChannelHooks.channel(self, e, env)
+        if isinstance(e, ast.IfExp):
+            return self.expr(e.body if self.cond(e.test, env) else e.orelse, env)
         if isinstance(e, ast.Name):
             if e.id in env:
                 return env[e.id]
@@ -305,8 +330,13 @@ class Exec:
             return Val('closure', node=e, env=dict(env))
         if isinstance(e, ast.BinOp):
             return self.binop(e.op, self.expr(e.left, env), self.expr(e.right, env))
-        if isinstance(e, ast.GeneratorExp):
-            raise TranslateError('generator outside sum()')
+        if isinstance(e, (ast.GeneratorExp, ast.ListComp)):
+            if len(e.generators) != 1 or e.generators[0].ifs or not isinstance(e.generators[0].target, ast.Name) \
+                    or self.range_kind(e.generators[0].iter, env) != 'L':
+                raise TranslateError('unsupported comprehension: ' + txt)
+            env2 = dict(env)
+            env2[e.generators[0].target.id] = Val('idxL', 'l')
+            return Val('array', stored=self.expr(e.elt, env2), complete=True)
         if isinstance(e, ast.Attribute):
             if e.attr == 'T':
                 return self.flip(self.expr(e.value, env), tr=True)
@@ -366,8 +396,18 @@ class Exec:
             return Val('real', '(RC.abs %s)' % v.t)
         if ftxt == 'np.divide' and len(args) == 2 and not kw:
             return Val('divmat', a=self.expr(args[0], env), b=self.expr(args[1], env))
+        if ftxt in ('cast', 'typing.cast') and len(args) == 2 and not kw:
+            return self.expr(args[1], env)
+        if ftxt in ('np.array', 'np.asarray') and len(args) == 1 and isinstance(args[0], ast.ListComp):
+            return self.expr(args[0], env)
         if ftxt == 'np.empty':
             return Val('array', stored=None)
+        if ftxt == 'sum' and len(args) + len(kw) == 2 and isinstance(args[0], ast.GeneratorExp):
+            st0 = args[1] if len(args) == 2 else kw.get('start')
+            if not (isinstance(st0, ast.Constant) and isinstance(st0.value, (int, float))
+                    and not isinstance(st0.value, bool) and st0.value == 0):
+                raise TranslateError('sum() with a start value other than 0')
+            args, kw = args[:1], {}
         if ftxt == 'sum' and len(args) == 1 and not kw and isinstance(args[0], ast.GeneratorExp):
             g = args[0]
             if len(g.generators) != 1 or g.generators[0].ifs or not isinstance(g.generators[0].target, ast.Name):
@@ -395,6 +435,22 @@ class Exec:
         kvs = {k: self.expr(v, env) for k, v in kw.items()}
         if fv.kind == 'method':
             return self.call_fn(fv.fn, avs, kvs)
+        if fv.kind == 'localfn':
+            ps = [a.arg for a in fv.fn.args.args]
+            if len(ps) != len(avs) or kvs:
+                raise TranslateError('local function called with wrong arity')
+            env2 = dict(fv.env)
+            env2.update(zip(ps, avs))
+            if self.depth > 6:
+                raise TranslateError('nesting too deep')
+            self.depth += 1
+            try:
+                r = self.block(fv.fn.body, env2)
+            finally:
+                self.depth -= 1
+            if r is None:
+                raise TranslateError('local function without a value')
+            return r
         if fv.kind == 'closure':
             ps = [a.arg for a in fv.node.args.args]
             if len(ps) != len(avs) or kvs:
@@ -414,18 +470,7 @@ def _need_k(first, env, what):
 
 class ChannelHooks(dict):
     """`self.get_Hkl(k, j)` / `self._get_channel(k, j)` -> `(G j)` (the row of channels into receiver k)"""
-
-    def __contains__(self, txt):
-        return self.get(txt) is not None
-
-    def get(self, txt, d=None):
-        for p in ('self.get_Hkl(', 'self._get_channel('):
-            if txt.startswith(p):
-                return self.channel
-        return dict.get(self, txt, d)
-
-    def __getitem__(self, txt):
-        return self.get(txt)
+    GETTERS = ('self.get_Hkl', 'self._get_channel')
 
     @staticmethod
     def channel(ex, e, env):
